@@ -166,13 +166,19 @@ class Driver:
 
 # ----------------------------------------------------------------------------- anchored-line coverage
 
+_AST_CACHE = {}
+
+
 def resolve_qualname(path, qual):
     """(first line, last line) of the def/class `A.b.c` in the file, or None"""
     import ast
-    try:
-        tree = ast.parse(open(path).read())
-    except Exception:
-        return None
+    tree = _AST_CACHE.get(path)
+    if tree is None:
+        try:
+            tree = ast.parse(open(path).read())
+        except Exception:
+            return None
+        _AST_CACHE[path] = tree
     node = tree
     for part in qual.split("."):
         nxt = None
